@@ -192,21 +192,24 @@ def g_constant(R, tier):
                 return Tmpl([Fn("escaped", s, (q,))])
             m = Machine(stubs={"oneliner.expr_unparse:get_unescaped_str": esc})
             v = Hole("value", "str")
-            gen = m.call_value(eu.unparse_Constant, ast.Constant(value=v), qm)
+            gen = m.call_value(eu.unparse_Constant, ast.Constant(value=v, kind=kind), qm)
             ys, res = CU.drive(gen)
             return dict(res=res, ys=ys, v=v, calls=calls)
-        for p in explore(run_str):
-            if p.kind != "ok":
-                R.fail(f"{base}/str/{qm}", repr(p.value)) if p.kind == "raise" else R.undecided(f"{base}/str/{qm}", repr(p.value))
-                continue
-            sym.set_ctx(p.ctx)
-            try:
-                v = p.value
-                want = Tmpl([qm, Fn("escaped", v["v"], (qm,)), qm])
-                R.check(f"{base}/str/{qm}", tmplcmp.canon(p.ctx, v["res"]) == tmplcmp.canon(p.ctx, want) and not v["ys"],
-                        f"real {v['res']!r}, production: quote + escaped(value, quote) + quote")
-            finally:
-                sym.set_ctx(None)
+        # Constant.kind ('u' for a literal written with the u prefix, else None) is part of the tree (ast.dump shows it)
+        for kind in (None, "u"):
+            for p in explore(run_str):
+                clause = f"{base}/str/{qm}" + ("" if kind is None else "/kind=u")
+                if p.kind != "ok":
+                    R.fail(clause, repr(p.value)) if p.kind == "raise" else R.undecided(clause, repr(p.value))
+                    continue
+                sym.set_ctx(p.ctx)
+                try:
+                    v = p.value
+                    want = Tmpl(([] if kind is None else ["u"]) + [qm, Fn("escaped", v["v"], (qm,)), qm])
+                    R.check(clause, tmplcmp.canon(p.ctx, v["res"]) == tmplcmp.canon(p.ctx, want) and not v["ys"],
+                            f"real {v['res']!r}, production: [u] + quote + escaped(value, quote) + quote", replay=dict(kind="const", family="u-prefix"))
+                finally:
+                    sym.set_ctx(None)
 
         def run_ell(c):
             m = Machine()
@@ -544,8 +547,15 @@ def replay_char(rp):
 
 def replay_const(rp):
     inf = float("inf")
-    val = {"float:+inf": inf, "complex:inf-imag": complex(0, inf)}.get(rp["name"])
-    if val is None and rp["name"].endswith(":family"):
+    if rp.get("family") == "u-prefix":
+        from spec import samples
+        for src in ("u'abc'", 'u"a\'b"', "f(u'x', 'y')", "[u'', u'\\n']"):
+            ok, text, why = _rt(samples.parse_expr(src))
+            if not ok:
+                return dict(reproduced=True, input=src, output=text, why=why)
+        return dict(reproduced=False)
+    val = {"float:+inf": inf, "complex:inf-imag": complex(0, inf)}.get(rp.get("name"))
+    if val is None and rp.get("name", "").endswith(":family"):
         for val in (1e20, 2.0, 1e-10, 2.5e300, 120.0, 1e16, 1e22, 0.1, 1e20j, 200j, 2.5j):
             ok, text, why = _rt(ast.Constant(value=val))
             if not ok:
